@@ -41,6 +41,11 @@ type PtrV struct {
 	NonNil  bool
 	ArrBase bool // pointer to a heap array laid out in the element maps: Root is the element type
 	ArrLen  int64
+	// element of an unrolled array of composite elements selected by a non-constant index: Path[DynPos] is a
+	// placeholder, the element is number DynIdx of DynLen
+	DynPos int
+	DynIdx *Term
+	DynLen int64
 }
 
 type cstep struct {
@@ -76,7 +81,7 @@ func typeKey(t types.Type) string {
 }
 
 // maxUnrolledArray: arrays of composite elements up to this length are modelled element by element.
-const maxUnrolledArray = 8
+const maxUnrolledArray = 16
 
 // Slot is one scalar leaf of a flattened type.
 type Slot struct {
